@@ -287,6 +287,8 @@ class Body:
             blocks.append(Block(i, stmts, Term(k, d, line, macros), b.get("cleanup", False)))
         self._blocks = blocks
         self.raw = None  # free
+        if getattr(self, "_hash_only", False):
+            return
         if self._reviewed_names is not None:
             self._unrename()
         self._inline_new_fns()
@@ -309,8 +311,15 @@ class Body:
                     proj.append(x)
             return "_%d%s" % (p.local, "".join(proj))
 
+        own = re.sub(r"(::\{closure#\d+\})+$", "", self.path).split("::")[-1]
+        own_re = re.compile(r"\b%s\b" % re.escape(own)) if re.match(r"^\w+$", own) else None
+
         def ty(t):
-            return Body._SPAN_RE.sub("@", t) if isinstance(t, str) else t
+            if not isinstance(t, str):
+                return t
+            t = Body._SPAN_RE.sub("@", t)
+            # the function's own name (in `{async fn body of ..}`, closure paths, a recursive call) is a name like any other
+            return own_re.sub("$self", t) if own_re is not None else t
 
         def op(o):
             if o is None:
@@ -1061,6 +1070,9 @@ class Program:
             if any(k.startswith(self.crate + "::") or ("<" + self.crate + "::") in k for k in known):
                 self.new_fns = {p for p, b in self.bodies.items() if b.kind in ("Fn", "AssocFn") and "{closure" not in p and p not in known and "::test" not in p and "::tests::" not in p}
         self.absorbed = {}
+        self.fn_alias = {}
+        if self.new_fns and not os.environ.get("VERIF_NO_RENAME"):
+            self._detect_renamed_fns()
         if self.new_fns:
             self._absorb_new_fns()
 
@@ -1096,7 +1108,72 @@ class Program:
             return self.crate
         if "crate::" in p:
             p = _CRATE_RE.sub(self.crate + "::", p)
+        al = getattr(self, "fn_alias", None)
+        if al:
+            q = al.get(p)
+            if q is not None:
+                return q
+            if "::{closure#" in p:
+                i = p.index("::{closure#")
+                q = al.get(p[:i])
+                if q is not None:
+                    return q + p[i:]
         return p
+
+    def _detect_renamed_fns(self):
+        """A function of the reviewed tree is gone and a new one has exactly its MIR (names erased, its own name included): it was
+        renamed. It is analysed under the reviewed path (body table and every call site), so rules anchored on it still find it. When
+        several removed functions had that same MIR (two identical private helpers merged into one), the new function stands for each
+        of them. Anything else about a removed function stays an anchor failure."""
+        self.fn_alias = {}
+        self.fn_renamed = []
+        kn = self.known_names
+        if not kn or not self.new_fns:
+            return
+        missing = {}
+        for p, ents in kn.items():
+            if p not in self.bodies and "::{closure#" not in p and "::tests::" not in p:
+                for e_ in ents:
+                    missing.setdefault(e_["h"], set()).add(p)
+        if not missing:
+            return
+        os.environ["VERIF_NO_INLINE_TMP"] = "1"
+        try:
+            for p in sorted(self.new_fns):
+                b = self.bodies.get(p)
+                if b is None or b.raw is None:
+                    continue
+                tmp = Body(self, b.raw)
+                tmp._reviewed_names = None
+                tmp._hash_only = True
+                tmp.blocks
+                h, _ = tmp.struct_hash()
+                olds = sorted(missing.get(h, ()))
+                if not olds:
+                    continue
+                self.fn_renamed.append((p, olds))
+                first = olds[0]
+                self.fn_alias[p] = first
+                # move the body (and its closures) under the reviewed path(s)
+                for q in [x for x in list(self.bodies) if x == p or x.startswith(p + "::{closure#")]:
+                    bq = self.bodies.pop(q)
+                    for k_, old in enumerate(olds):
+                        nq = old + q[len(p):]
+                        if k_ == 0:
+                            bq.path = nq
+                            if bq.parent and (bq.parent == p or bq.parent.startswith(p + "::{closure#")):
+                                bq.parent = old + bq.parent[len(p):]
+                            self.bodies[nq] = bq
+                        else:
+                            cp = Body(self, bq.raw)
+                            cp.path = nq
+                            if cp.parent and (cp.parent == p or cp.parent.startswith(p + "::{closure#")):
+                                cp.parent = old + cp.parent[len(p):]
+                            self.bodies[nq] = cp
+                self.new_fns.discard(p)
+        finally:
+            os.environ.pop("VERIF_NO_INLINE_TMP", None)
+        self.coroutine_paths = {p for p, b in self.bodies.items() if b.coroutine}
 
     # --- lookup ----------------------------------------------------------------------------
     def body(self, suffix):
